@@ -175,13 +175,17 @@ func makePlan(shs []shape, thorough bool) plan {
 			p.slices = append(p.slices, sliceDef{"pointers/" + sh.name, si, without(formAssignments(p.alpha, sh.nslots), canon), [][]int{mixedDamage(n)}, []flagSet{flNone, flPtr, flObj}})
 			continue
 		}
-		p.slices = append(p.slices, sliceDef{"objects1/" + sh.name, si, sh.objForms, damageVectors(n, 0, 1), []flagSet{flNone, flObj, flPtr, flDry, flDryObj}})
-		p.slices = append(p.slices, sliceDef{"objects2/" + sh.name, si, [][]form{canon}, damageVectors(n, 2, 2), []flagSet{flNone, flDry}})
-		p.slices = append(p.slices, sliceDef{"pointers/" + sh.name, si, without(formAssignments(p.alpha, sh.nslots), sh.objForms...), [][]int{none, mixedDamage(n)}, []flagSet{flNone, flPtr, flObj, flDry}})
-		p.slices = append(p.slices, sliceDef{"flags/" + sh.name, si, sh.objForms[1:], [][]int{mixedDamage(n)}, []flagSet{flDryPtr, flBoth, flShort}})
+		p.slices = append(p.slices, sliceDef{"objects1/" + sh.name, si, sh.objForms, damageVectors(n, 0, 1), []flagSet{flNone, flObj, flPtr, flDry}})
+		p.slices = append(p.slices, sliceDef{"objects2/" + sh.name, si, [][]form{canon}, damageVectors(n, 2, 2), []flagSet{flNone}})
+		p.slices = append(p.slices, sliceDef{"pointers/" + sh.name, si, without(formAssignments(p.alpha, sh.nslots), sh.objForms...), [][]int{none, mixedDamage(n)}, []flagSet{flNone, flPtr, flDry}})
+		p.slices = append(p.slices, sliceDef{"flags/" + sh.name, si, sh.objForms[1:], [][]int{mixedDamage(n)}, []flagSet{flDryObj, flDryPtr, flBoth, flShort}})
 		if sh.name == "dup" || sh.name == "staged" {
 			// the remaining (assignment over {canon,crlf,raw}) x (single damage) cells: with objects1 and pointers the product is complete there
-			p.slices = append(p.slices, sliceDef{"cross/" + sh.name, si, without(formAssignments([]form{fCanon, fCRLF, fRaw}, sh.nslots), sh.objForms...), damageVectors(n, 1, 1), []flagSet{flNone, flDry}})
+			fls := []flagSet{flNone}
+			if sh.name == "staged" {
+				fls = []flagSet{flNone, flDry}
+			}
+			p.slices = append(p.slices, sliceDef{"cross/" + sh.name, si, without(formAssignments([]form{fCanon, fCRLF, fRaw}, sh.nslots), sh.objForms...), damageVectors(n, 1, 1), fls})
 		}
 	}
 	return p
@@ -787,8 +791,8 @@ func TestVerifC13(t *testing.T) {
 	c.Rule = "one case = (shape, pointer-form assignment to the 3 form slots, damage vector over the local objects, revision argument, flag set, lfs.fetchexclude value); " +
 		"the explored set is a union of disjoint COMPLETE products (slices, listed with their sizes under bounds.slices), every slice crossed with every revision argument and fetchexclude value of its shape: " +
 		"quick: objects/* = all-canonical history x every damage vector with <=1 damaged object (5 damage kinds) x {no flag, --dry-run}; pointers/* = every other assignment over {canon,crlf,raw} x the mixed damage vector x {no flag, --pointers, --objects}. " +
-		"thorough: objects1/* = {all canonical, one mixed assignment} x <=1 damaged x 5 flag sets; objects2/* = all canonical x exactly 2 damaged (all kind pairs) x {no flag, --dry-run}; pointers/* = every other assignment over {canon,crlf,raw,nonl} x {intact, mixed damage} x 4 flag sets; " +
-		"flags/* = 3 further flag spellings; cross/{dup,staged} = the remaining (assignment over {canon,crlf,raw} x single damage) cells x {no flag, --dry-run} so that forms x single damages is a full product there.  " +
+		"thorough: objects1/* = {all canonical, one mixed assignment} x <=1 damaged x {no flag, --objects, --pointers, --dry-run}; objects2/* = all canonical x exactly 2 damaged (all kind pairs) x {no flag}; pointers/* = every other assignment over {canon,crlf,raw,nonl} x {intact, mixed damage} x {no flag, --pointers, --dry-run}; " +
+		"flags/* = 4 further flag spellings on the mixed assignment; cross/{dup,staged} = the remaining (assignment over {canon,crlf,raw} x single damage) cells (staged: also under --dry-run) so that forms x single damages is a full product there.  " +
 		"distinct_nontrivial = distinct cases in which at least one object is damaged or one path is not a canonical pointer (all-intact all-canonical cases only count as executions)"
 	c.Assumptions = []string{
 		"scope per docs/man/git-lfs-fsck.adoc: no argument = HEAD plus (objects only) the index; one committish = that commit only; A..B = the commits in the range",
